@@ -274,7 +274,7 @@ Query(op, m) ==
 Reject(k) ==
     /\ "reject" \in Ops
     /\ k \in RejectKinds
-    /\ (k = "predict_unfitted" => ~fitted)
+    /\ (k \in {"predict_unfitted", "predict_exp_unfitted"} => ~fitted)
     /\ (k \in {"ws_all_zero_features"} => FALSE)
     /\ last' = [op |-> "reject", kind |-> k]
     /\ UNCHANGED <<modelVars, ghostVars>>
@@ -356,6 +356,17 @@ Prop_C13_WarmStart ==
               /\ status'[c] = [tr |-> FALSE, wm |-> TRUE, by |-> wm[c]]
               /\ \A w \in RangeS(TrainedArms) : RLeq(CosDist(c, wm[c]), CosDist(c, w))
          /\ arms' = arms /\ total' = total /\ fitted' = fitted
+      ]_vars
+
+(* C13: every cold arm whose nearest trained arm is within the quantile threshold is warmed
+   (stated with the documented threshold, independently of WarmMap) *)
+Prop_C13_Complete ==
+    [][last'.op = "warm_start" =>
+         LET q   == last'.q
+             thr == RQuantile(ClosestList, q)
+         IN  \A c \in RangeS(ColdArms) :
+                (Len(TrainedArms) > 0 /\ \E w \in RangeS(TrainedArms) : RLeq(CosDist(c, w), thr))
+                    => c \in DOMAIN last'.map
       ]_vars
 
 (* C13: the warmed set grows with the quantile; repeating the call changes nothing *)
